@@ -551,7 +551,7 @@ namespace bxdecay0 {
     if (modebb == LEGACY_MODEBB_10) {
       e1 = ebb1 + (ebb2 - ebb1) * prng_();
     }
-    k = (int)(e1 * 1000.);
+    k = (int)(e1 * 1000. + 0.5); // nearest 1 keV bin, as the reference (k=nint(e1*1000.))
     if (k < 1) {
       k = 1;
     }
